@@ -18,6 +18,8 @@ pub mod server;
 pub mod sharding;
 pub mod stats;
 pub mod tls;
+#[cfg(pgcat_verif)]
+pub mod verif_hooks;
 
 /// Format chrono::Duration to be more human-friendly.
 ///
